@@ -483,6 +483,20 @@ impl Slave {
                 b.extend_from_slice(&t);
                 b
             }
+            ByzShape::ReadyDiag => match decoded {
+                Some(Frame::Data { da, sa, dsap, ssap: Some(60), fc, mut pdu }) if pdu.len() >= 6 => {
+                    pdu[0] &= !(0x02 | 0x04 | 0x40);
+                    pdu[1] &= !0x01;
+                    if pdu[3] == 255 {
+                        pdu[3] = da;
+                    }
+                    wire::encode(&Frame::Data { da, sa, dsap, ssap: Some(60), fc, pdu })
+                }
+                _ => {
+                    self.byz.push_front(ByzShape::ReadyDiag);
+                    good.clone()
+                }
+            },
             ByzShape::ExtDiag(e) => match decoded {
                 Some(Frame::Data { da, sa, dsap, ssap, fc, mut pdu }) if pdu.len() >= 6 => {
                     pdu.truncate(6);
